@@ -22,9 +22,15 @@ compose   (trace contract, two arrays) the ghost buffer is built in the
           shifted -T_x; y: images OF THE GHOSTS SO FAR (low, high) then of P
           (high, low); z likewise; each extract is followed by the shift of
           exactly the newly added tail (start = size before) along the same
-          axis; mirror: same skeleton with the translation list built in the
-          same scan of the same array and the matching velocity component
-          negated; images tagged Ghost and appended to the array
+          axis; mirror: the same ten copies per array, stated as ORDER
+          CONSTRAINTS (check_mirror): each copy is translated by the list
+          filled in the same scan, its normal velocity negated, then
+          appended; a corner scan sees exactly the images of the earlier
+          axes; an index list filled by scanning the image buffer is used
+          before that buffer is appended to again (append_parray re-aligns
+          its target, so the indices go stale when the buffer holds copies of
+          periodic ghosts -- defect repaired in 25b2043); images tagged Ghost
+          and appended to the array
 update    ghosts of the previous update are removed before wrapping and
           before new ones are created (no accumulation)
 NOT verified: the set-theoretic lemma that this construction yields every
@@ -58,7 +64,7 @@ def tasks(tier):
     # ghosts are built with ParticleArray.extract_particles / append_parray
     # and removed with remove_tagged_particles (C06): re-proved here
     return ['wrap', 'helpers', 'periodic', 'mirror', 'update', 'construct',
-            'canary',
+            'canary', 'native',
             'dep:C06:extract', 'dep:C06:append', 'dep:C06:tagged',
             'dep:C06:remove',
             # the ghost buffer picks up properties added later through
@@ -92,6 +98,8 @@ def run_task(task, ctx):
         return task_update(ctx, repo, m)
     if task == 'construct':
         return task_construct(ctx, repo, m)
+    if task == 'native':
+        return task_native(ctx)
     if task == 'canary':
         x = z3.Real('cx')
         ctx.canary('canary.must_fail', Obligation('c', [x > 0], x > 1))
@@ -483,6 +491,53 @@ if bad is None:
         if got != sorted(want):
             bad = dict(case='3D box, periodic flags %s' % (fl,), ghosts=len(got), expected=len(want), missing=sorted(set(want) - set(got))[:6], extra=sorted(set(got) - set(want))[:6]); break
 if bad is None:
+    # every mix of none / periodic / mirror per axis in 3D, particles in the
+    # corners, velocities, two updates: the ghosts are exactly the images
+    # (the mirror pass also reflects the periodic ghosts)
+    from collections import Counter
+    rng = np.random.RandomState(3)
+    for trial in range(d.get('trials', 4)):
+        P = []
+        for i in range(14):
+            P.append([round(float({0: 0.01 + 0.08 * rng.rand(), 1: 0.91 + 0.08 * rng.rand()}.get(rng.randint(3), 0.3 + 0.4 * rng.rand())), 6) for a in range(3)])
+        U = rng.rand(14, 3).round(4)
+        nl = 1 + trial % 2; L = nl * 2.0 * 0.05
+        for kinds in itertools.product('npm', repeat=3):
+            if all(k == 'n' for k in kinds) or 'm' not in kinds: continue
+            kw = {}
+            for a, k in zip('xyz', kinds):
+                if k == 'p': kw['periodic_in_' + a] = True
+                if k == 'm': kw['mirror_in_' + a] = True
+            pa = get_particle_array(name='a', x=[p[0] for p in P], y=[p[1] for p in P], z=[p[2] for p in P], h=0.05, u=U[:, 0], v=U[:, 1], w=U[:, 2])
+            dm = DomainManager(xmin=0, xmax=1, ymin=0, ymax=1, zmin=0, zmax=1, n_layers=nl, **kw)
+            nn = LinkedListNNPS(dim=3, particles=[pa], domain=dm, radius_scale=2.0)
+            for rnd in range(2):
+                want = []
+                for p, vel in zip(P, U):
+                    opts = []
+                    for a, kind in enumerate(kinds):
+                        o = [(0, p[a], 1.0)]
+                        if kind == 'p':
+                            if p[a] - 0 <= L: o.append((1, p[a] + 1, 1.0))
+                            if 1 - p[a] <= L: o.append((1, p[a] - 1, 1.0))
+                        elif kind == 'm':
+                            if p[a] - 0 <= L: o.append((1, -p[a], -1.0))
+                            if 1 - p[a] <= L: o.append((1, 2 - p[a], -1.0))
+                        opts.append(o)
+                    for combo in itertools.product(*opts):
+                        if not any(c[0] for c in combo): continue
+                        want.append(tuple(round(c[1], 9) for c in combo) + tuple(round(float(c[2] * vel[a]), 9) for a, c in enumerate(combo)))
+                tg = pa.get('tag', only_real_particles=False)
+                G = [pa.get(k, only_real_particles=False) for k in 'xyzuvw']
+                got = [tuple(round(float(G[a][i]), 9) for a in range(6)) for i in range(len(tg)) if tg[i] != 0]
+                if Counter(got) != Counter(want):
+                    mi = list((Counter(want) - Counter(got)).elements())[:3]; exr = list((Counter(got) - Counter(want)).elements())[:3]
+                    bad = dict(case='3D box, axes (n=open, p=periodic, m=mirror) %s, n_layers %d, update %d' % (''.join(kinds), nl, rnd + 1),
+                               particles=P, ghosts=len(got), expected=len(want), missing_images_xyzuvw=mi, spurious_images_xyzuvw=exr); break
+                nn.update_domain(); nn.update()
+            if bad: break
+        if bad: break
+if bad is None:
     # two arrays with different smoothing lengths: the ghost layer of EVERY
     # array is n_layers * radius_scale * (largest h over all arrays)
     xc = np.arange(0.0625, 1, 0.125); xf = np.arange(0.015625, 1, 0.03125)
@@ -524,6 +579,42 @@ def replay_built(model, ob):
         return dict(reproduced=False)
     except Exception as e:
         return dict(reproduced=False, note=str(e)[-300:])
+
+
+def task_native(ctx):
+    """BOUNDED stand-in, never counted as proved: the replay scenarios run on
+    the extensions built from the working tree on EVERY run, not only when an
+    obligation fails.  The composition contracts state how the ghost buffer
+    is put together; that this yields every face / edge / corner image
+    exactly once is a lemma outside the generator, and a contract written
+    from the code can encode a defect of the code (it did: 25b2043).  The
+    scenarios compare with the property's own definition of the images."""
+    import os
+    if os.environ.get('PYVC_NO_BUILD_REPLAY'):
+        ctx.note('native scenarios skipped: PYVC_NO_BUILD_REPLAY set '
+                 '(development)')
+        return
+    trials = 12 if ctx.tier == 'thorough' else 4
+    dst, msg = native.shared_build()
+    if dst is None:
+        raise RuntimeError('extensions could not be built: %s' % msg)
+    r = native.run_venv(REPLAY, dict(built=dst, trials=trials), timeout=1800,
+                        cwd='/tmp')
+    bound = ('9 scenario groups on the built extensions: box wrap across '
+             'every face of a non-cubic box; mirror corner velocities; two '
+             'and three arrays; three updates; particles exactly on the '
+             'layer boundary; all 7 periodic flag combinations in 3D; all 19 '
+             'mixes of open/periodic/mirror axes with a mirror axis x %d '
+             'random corner-heavy particle sets x n_layers 1,2 x 2 updates '
+             '(positions and velocities of every ghost, as multisets); two '
+             'smoothing-length scales' % trials)
+    if r['bad']:
+        ctx.bounded_check('native.' + str(r['bad'].get('case'))[:80], bound,
+                          1, False, r['bad'])
+    else:
+        ctx.bounded_check('native.ghost_scenarios', bound, 9, True,
+                          'every scenario agrees with the definition of '
+                          'the images')
 
 
 # --------------------------------------------------------------------- wrap
@@ -732,16 +823,17 @@ class ArrStub(object):
         if name == 'extract_particles':
             def f(e, s_, a, k, n):
                 dest = a[1] if len(a) > 1 else k.get('dest_array')
-                s_.trace.append(('extract', me.name, a[0].name,
-                                 tuple(a[0].items),
-                                 dest.name if dest is not None else None,
-                                 k.get('align', True)))
+                res = dest
                 if dest is None:
                     cnt = s_.env.get('__ncopy__', 0) + 1
                     s_.env['__ncopy__'] = cnt
-                    return ArrStub('copy%d<%s[%s]>' % (cnt, me.name,
-                                                      a[0].name))
-                return dest
+                    res = ArrStub('copy%d<%s[%s]>' % (cnt, me.name,
+                                                     a[0].name))
+                s_.trace.append(('extract', me.name, a[0].name,
+                                 tuple(a[0].items),
+                                 dest.name if dest is not None else None,
+                                 k.get('align', True), res.name))
+                return res
             return Native(f)
         if name == 'get_carray':
             return Native(lambda e, s_, a, k, n: ColStub(me.name, a[0]))
@@ -967,6 +1059,7 @@ def _compose(ctx, repo, m, mode, have_ghosts, any_flags=False):
             for v in list(se.env.values()):
                 if isinstance(v, ListStub) and v.name in names:
                     v.items = v.items + [('scan', k, ai)]
+            se.trace.append(('scan_done', k, ai))
         return hook
     for k in ks:
         specs[k].exit_hook = make_exit_hook(k)
@@ -1102,6 +1195,8 @@ def check_composition(trace, var, mode, narrays, ks):
     """The sequence of array operations against the documented construction.
     Returns (ok, reason)."""
     inv = {v: k for k, v in var.items()}
+    if mode == 'mirror':
+        return check_mirror(trace, inv, narrays, ks)
     ops = [t for t in trace if t[0] in ('extract', 'add_to', 'add_arr',
                                         'mul', 'append_parray', 'tag[:]=')]
     pos = 0
@@ -1126,7 +1221,7 @@ def check_composition(trace, var, mode, narrays, ks):
                     return False, 'array %d axis %s: expected an extract, ' \
                         'got %r' % (ai, ax, ops[pos][:3] if pos < len(ops)
                                     else None)
-                _, sname, lst, items, dest, align = ops[pos]
+                _, sname, lst, items, dest, align = ops[pos][:6]
                 pos += 1
                 if inv.get(lst) != lname:
                     return False, 'array %d axis %s: extract uses list %s, ' \
@@ -1219,6 +1314,186 @@ def check_composition(trace, var, mode, narrays, ks):
         pos += 2
     if pos != len(ops):
         return False, 'unexpected extra operations: %r' % (ops[pos][:3],)
+    return True, ''
+
+
+def check_mirror(trace, inv, narrays, ks):
+    """The mirror construction, as constraints on the order of events (not a
+    fixed sequence).  Per array: ten copies -- x: low_x(P), high_x(P); y and
+    z: low/high OF THE IMAGES SO FAR, then high/low of P -- each translated
+    along its own axis by the list filled in the same scan, its normal
+    velocity negated, then appended to the image buffer `added`; and
+
+      order     the corner scan of an axis reads the buffer after every copy
+                of the earlier axes and before any copy of its own axis went
+                in
+      fresh     an index list filled by scanning the buffer is used (extract)
+                before the buffer is appended to again: append_parray
+                re-aligns its target (local-tagged entries move in front of
+                ghost-tagged ones, which copies of periodic ghosts are), so
+                the indices name other particles afterwards
+      finally   the buffer is tagged Ghost and appended to the array.
+    """
+    ev = [t for t in trace if t[0] in ('extract', 'add_arr', 'mul',
+                                       'append_parray', 'tag[:]=',
+                                       'scan_done', 'add_to')]
+    vel = {'x': 'u', 'y': 'v', 'z': 'w'}
+    tl = {'x_low': 'xt_low', 'x_high': 'xt_high', 'y_low': 'yt_low',
+          'y_high': 'yt_high', 'z_low': 'zt_low', 'z_high': 'zt_high',
+          'low': 'low_translate', 'high': 'high_translate'}
+    # sections: one per array, ending with append_parray(pa<i>, added..)
+    ends = [j for j, t in enumerate(ev) if t[0] == 'append_parray' and
+            t[1].startswith('pa')]
+    if len(ends) != narrays:
+        return False, 'mirror: images appended to the arrays %d times for ' \
+            '%d arrays' % (len(ends), narrays)
+    start = 0
+    for ai, end in enumerate(ends):
+        sec = ev[start:end + 1]
+        start = end + 1
+        buf = sec[-1][2]
+        if sec[-1][1] != 'pa%d' % ai or not buf.startswith('added'):
+            return False, 'mirror array %d: %s appended to %s' % (
+                ai, buf, sec[-1][1])
+        if len(sec) < 2 or sec[-2][0] != 'tag[:]=' or sec[-2][1] != buf or \
+                str(sec[-2][2]) != '2':
+            return False, 'mirror array %d: images not tagged Ghost just ' \
+                'before they are appended' % ai
+        marks = {}
+        for j, t in enumerate(sec):
+            if t[0] == 'scan_done':
+                marks.setdefault(t[1], j)
+        if sorted(marks) != sorted(ks):
+            return False, 'mirror array %d: scans found %r' % (ai,
+                                                               sorted(marks))
+        axis_mark = {'y': marks[ks[1]], 'z': marks[ks[2]]}
+        appends = [j for j, t in enumerate(sec[:-1])
+                   if t[0] == 'append_parray']
+        for j, t in enumerate(sec[:-2]):
+            if t[0] == 'add_to':
+                return False, 'mirror: constant shift of %s' % t[1]
+            if t[0] == 'tag[:]=':
+                return False, 'mirror array %d: stray tag assignment' % ai
+        units = {}
+        order = []
+        for j, t in enumerate(sec[:-2]):
+            if t[0] != 'extract':
+                continue
+            _, sname, lst, items, dest, align, cname = t
+            lname = inv.get(lst)
+            if dest is not None:
+                return False, 'mirror: extract into %s' % dest
+            if lname in ('low', 'high'):
+                if not (len(items) == 1 and items[0][0] == 'scan' and
+                        items[0][1] in (ks[1], ks[2])):
+                    return False, 'mirror array %d: list %s holds %r ' \
+                        '(stale or unfilled)' % (ai, lname, items)
+                ax = 'y' if items[0][1] == ks[1] else 'z'
+                key = (ax, lname)
+                if not sname == buf:
+                    return False, 'mirror array %d: corner extract from ' \
+                        '%s' % (ai, sname)
+                mk_ = axis_mark[ax]
+                if j < mk_:
+                    return False, 'mirror array %d axis %s: %s used ' \
+                        'before its scan' % (ai, ax, lname)
+                between = [a_ for a_ in appends if mk_ < a_ < j and
+                           sec[a_][1] == buf]
+                if between:
+                    return False, 'mirror array %d axis %s: the image ' \
+                        'buffer is appended to (and re-aligned) between ' \
+                        'the scan that filled `%s` and the extract that ' \
+                        'uses it: the indices are stale when the buffer ' \
+                        'holds copies of periodic ghosts' % (ai, ax, lname)
+            elif lname in ('x_low', 'x_high', 'y_low', 'y_high', 'z_low',
+                           'z_high'):
+                ax = lname[0]
+                key = (ax, lname)
+                if sname != 'pa%d' % ai:
+                    return False, 'mirror: extract from %s' % sname
+                if not (len(items) == 1 and items[0][0] == 'scan' and
+                        items[0][1] == ks[0] and items[0][2] == ai):
+                    return False, 'mirror array %d axis %s: list %s holds ' \
+                        '%r (stale or unfilled)' % (ai, ax, lname, items)
+            else:
+                return False, 'mirror: extract uses list %s' % lname
+            if items and items[0][2] != ai:
+                return False, 'mirror array %d: list %s filled for array ' \
+                    '%s' % (ai, lname, items[0][2])
+            if key in units:
+                return False, 'mirror array %d: %s extracted twice' % (
+                    ai, key[1])
+            units[key] = dict(j=j, ax=ax, lname=lname, lst=lst, src=sname,
+                              name=cname, scan=items[0][1])
+            order.append(key)
+        need = [('x', 'x_low'), ('x', 'x_high')]
+        for ax in ('y', 'z'):
+            need += [(ax, 'low'), (ax, 'high'), (ax, ax + '_high'),
+                     (ax, ax + '_low')]
+        if sorted(units) != sorted(need):
+            return False, 'mirror array %d: copies made %r' % (
+                ai, sorted(set(need) ^ set(units)))
+        used = set()
+        for key, u in units.items():
+            cname = u['name']
+            mine = [(j, t) for j, t in enumerate(sec[:-2]) if (
+                t[0] in ('add_arr', 'mul') and
+                t[1].rsplit('.', 1)[0] == cname) or (
+                t[0] == 'append_parray' and t[2] == cname)]
+            if any(j < u['j'] for (j, t) in mine):
+                return False, 'mirror array %d: copy of %s used before ' \
+                    'it is made' % (ai, u['lname'])
+            kinds = [t[0] for (j, t) in mine]
+            if sorted(kinds) != ['add_arr', 'append_parray', 'mul'] or \
+                    kinds[-1] != 'append_parray':
+                return False, 'mirror array %d %s: operations on the copy ' \
+                    'are %r (expected translate, negate, then append)' % (
+                        ai, u['lname'], kinds)
+            for (j, t) in mine:
+                used.add(j)
+                if t[0] == 'add_arr':
+                    if not t[1].endswith('.' + u['ax']) or \
+                            inv.get(t[2]) != tl[u['lname']]:
+                        return False, 'mirror: %s translated with %s ' \
+                            'along %s' % (u['lname'], inv.get(t[2]), t[1])
+                    it = t[3]
+                    if not (len(it) == 1 and it[0][0] == 'scan' and
+                            it[0][2] == ai and it[0][1] == u['scan']):
+                        return False, 'mirror array %d: translation list ' \
+                            '%s holds %r (not reset between arrays?)' % (
+                                ai, tl[u['lname']], it)
+                elif t[0] == 'mul':
+                    if not t[1].endswith('.' + vel[u['ax']]) or \
+                            str(t[2]) not in ('-1', '-1.0'):
+                        return False, 'mirror array %d %s: velocity %s ' \
+                            'scaled by %s (expected %s * -1)' % (
+                                ai, u['lname'], t[1], t[2], vel[u['ax']])
+                else:
+                    if t[1] != buf:
+                        return False, 'mirror array %d: copy of %s ' \
+                            'appended to %s' % (ai, u['lname'], t[1])
+                    u['app'] = j
+        # order: corner scans see exactly the copies of the earlier axes
+        for ax, earlier in (('y', ('x',)), ('z', ('x', 'y'))):
+            mk_ = axis_mark[ax]
+            for key, u in units.items():
+                if u['ax'] in earlier and u['app'] > mk_:
+                    return False, 'mirror array %d: the %s corner scan ' \
+                        'runs before the %s images are in the buffer' % (
+                            ai, ax, u['lname'])
+                if u['ax'] == ax and u['app'] < mk_:
+                    return False, 'mirror array %d: %s images in the ' \
+                        'buffer before the %s corner scan' % (ai, ax, ax)
+                if ax == 'y' and u['ax'] == 'z' and u['app'] < mk_:
+                    return False, 'mirror array %d: z images before the ' \
+                        'y corner scan' % ai
+        extra = [t for j, t in enumerate(sec[:-2]) if j not in used and
+                 t[0] in ('add_arr', 'mul', 'append_parray')]
+        if extra:
+            return False, 'mirror array %d: unexpected extra operations: ' \
+                '%r' % (ai, extra[0][:3])
+    if start != len(ev) and any(t[0] != 'scan_done' for t in ev[start:]):
+        return False, 'mirror: operations after the last array'
     return True, ''
 
 
